@@ -8,7 +8,7 @@
      zstd_ok     = decode (encode l d) = d.
    Cryptographic strength, nonce randomness, scrypt and SHA-256 themselves are outside. *)
 From Verif.Base Require Import Tactics.
-From Verif.C04 Require Import Model Extracted Proofs Proofs2 Toy.
+From Verif.C04 Require Import Model Extracted Proofs Proofs2 Proofs3 Toy.
 Local Open Scope N_scope.
 
 (* constants regenerated from the source agree with the model *)
@@ -203,9 +203,44 @@ Theorem all_site_classes_present :
 Proof. intros c H. cbn in H. repeat (destruct H as [<-|H]; [cbn; tauto|]). contradiction. Qed.
 Print Assumptions all_site_classes_present.
 
-(* substitution_detected — REFUTED for the read of the unchanged tree (no comparison of the id
-   with the hash of the stored bytes): after exchanging two files of one type, reading the first
-   id returns the second file's content, without error. *)
+(* Substitution.  History: `substitution_detected` was REFUTED for the tree as first examined —
+   read_encrypted_full did not compare the id with the hash of the stored bytes (model function
+   `read_encrypted_full`), so after exchanging two files of one type reading the first id returned
+   the second file's content without error (substitution_refuted / substitution_detected_refuted
+   below remain true of that unchecked read, which is still what a DecryptBackend with verify_id
+   off does).  The repair (commit `fix: verify the id of repository files when they are read`)
+   makes Repository::open_raw switch the comparison on; the facts regenerated from the source
+   (read_path_verifies_id) select the checked read, and substitution_detected is now PROVED. *)
+Theorem read_path_verifies_id : x_read_verifies_id = true.
+Proof. reflexivity. Qed.
+Print Assumptions read_path_verifies_id.
+
+(* For a file written by hash_write_full: whatever the backend holds afterwards — any
+   modification, truncation, extension of the file, substitution by ANY other byte string
+   including other genuine files — reading its id with the read of the repaired tree
+   (verify_id on, not the config file) yields an error or exactly the data that was written. *)
+Theorem substitution_detected :
+  forall (key : Type) enc dec issued zenc zdec (hash : bytes -> fid),
+    @ideal_aead key enc dec issued -> zstd_ok zenc zdec ->
+  forall zstd k n data (s' : store) x,
+    length n = nonce_len -> issued k n (file_payload zenc zstd data) ->
+    (zstd = None -> json_start data = true) ->
+    let c := encrypt_file key enc zenc zstd k n data in
+    (forall d, hash d = hash c -> d = c) ->
+    read_repo_file key dec zdec hash x_read_verifies_id false k s' (hash c) = Ok x -> x = data.
+Proof. intros. eapply substitution_detected_lemma; eassumption. Qed.
+Print Assumptions substitution_detected.
+
+Example substitution_detected_ex :
+  let c1 := encrypt_file tkey toy_enc (toy_zenc []) (Some 3%Z) 7 ex_n1 ex_d1 in
+  let c2 := encrypt_file tkey toy_enc (toy_zenc []) (Some 3%Z) 7 ex_n2 ex_d2 in
+  let s' := swap_files [(toy_hash c2, c2); (toy_hash c1, c1)] (toy_hash c1) (toy_hash c2) in
+  read_repo_file tkey (toy_dec ex_log) (toy_zdec []) toy_hash x_read_verifies_id false 7
+                 [(toy_hash c2, c2); (toy_hash c1, c1)] (toy_hash c1) = Ok ex_d1
+  /\ read_repo_file tkey (toy_dec ex_log) (toy_zdec []) toy_hash x_read_verifies_id false 7 s' (toy_hash c1)
+     = Err EIdMismatch.
+Proof. cbv zeta. split; vm_compute; reflexivity. Qed.
+
 Theorem substitution_refuted :
   forall (key : Type) enc dec issued zenc zdec (hash : bytes -> fid),
     @ideal_aead key enc dec issued -> zstd_ok zenc zdec ->
@@ -263,3 +298,79 @@ Theorem id_check_rejects_swap :
     /\ read_encrypted_full_checked key dec zdec hash k s' (hash c2) = Err EIdMismatch.
 Proof. intros. eapply id_check_rejects_swap_lemma; eassumption. Qed.
 Print Assumptions id_check_rejects_swap.
+
+(* ---- second round: key files under attack, config file, plain mode, nonce freshness ---- *)
+
+(* Whatever bytes the key files hold (salt and data chosen by an attacker, bits flipped, truncated,
+   copied from another repository with other passwords): if find_key_in_backend returns a key at
+   all, it is the master key — provided password-derived keys were only ever used to encrypt the
+   serialised master key (KeyFile::generate is their only user). *)
+Theorem find_key_yields_only_master_key :
+  forall (key password : Type) enc dec issued (kdf : password -> bytes -> key) mk_ser mk_de,
+    @ideal_aead key enc dec issued -> (forall k, mk_de (mk_ser k) = Some k) ->
+  forall master, (forall p s n m, issued (kdf p s) n m -> m = mk_ser master) ->
+  forall kfs pass k i, find_key key dec password kdf mk_de kfs pass = Ok (k, i) -> k = master.
+Proof. intros. eapply find_key_only_master; eassumption. Qed.
+Print Assumptions find_key_yields_only_master_key.
+
+Example find_key_yields_only_master_key_ex :
+  forall p s n m, toy_issued ex_log (toy_kdf p s) n m -> m = toy_mk_ser 7.
+Proof.
+  intros p s n m H. unfold toy_issued, ex_log in H. cbn [In] in H. unfold toy_kdf in *.
+  repeat (destruct H as [H|H]; [injection H as E1 E2 E3; try (exfalso; lia); subst; reflexivity|]).
+  contradiction.
+Qed.
+
+(* a genuine key file whose data field was truncated, extended, or modified outside the nonce
+   field does not open even with the right password *)
+Theorem tampered_keyfile_never_opens :
+  forall (key password : Type) enc dec issued (kdf : password -> bytes -> key) (mk_ser : key -> bytes) mk_de,
+    @ideal_aead key enc dec issued ->
+  forall master p s n t,
+    length n = nonce_len -> issued (kdf p s) n (mk_ser master) ->
+    t <> encrypt_data key enc (kdf p s) n (mk_ser master) ->
+    ((exists j, (j < length (encrypt_data key enc (kdf p s) n (mk_ser master)))%nat
+                /\ t = firstn j (encrypt_data key enc (kdf p s) n (mk_ser master)))
+     \/ (exists x, t = encrypt_data key enc (kdf p s) n (mk_ser master) ++ x)
+     \/ firstn nonce_len t = firstn nonce_len (encrypt_data key enc (kdf p s) n (mk_ser master))) ->
+    forall k, key_from_password key dec password kdf mk_de {| kf_salt := s; kf_data := t |} p <> Ok k.
+Proof. intros. eapply Proofs3.tampered_keyfile_never_opens; eassumption. Qed.
+Print Assumptions tampered_keyfile_never_opens.
+
+(* the config file is exempt from the id check (it is stored under a fixed name by most
+   backends) but still authenticated: a successful read means the stored bytes are an issued
+   ciphertext under the key used *)
+Theorem config_read_unchecked_but_authentic :
+  forall (key : Type) enc dec issued zdec (hash : bytes -> fid),
+    @ideal_aead key enc dec issued ->
+  forall v k s i x,
+    read_repo_file key dec zdec hash v true k s i = Ok x ->
+    exists d n m, lookup s i = Some d /\ length n = nonce_len /\ issued k n m
+                  /\ d = encrypt_data key enc k n m /\ decode_file_plain zdec m = Ok x.
+Proof.
+  intros key enc dec issued zdec hash IA v k s i x R.
+  rewrite config_read_is_unchecked in R. eapply config_read_authentic; eassumption.
+Qed.
+Print Assumptions config_read_unchecked_but_authentic.
+
+(* why file_roundtrip needs `json_start` when compression is off *)
+Theorem plain_mode_non_json_does_not_read_back :
+  forall (key : Type) enc dec issued zenc zdec,
+    @ideal_aead key enc dec issued ->
+  forall k n b r,
+    length n = nonce_len -> issued k n (b :: r) ->
+    (b =? m_brace) || (b =? m_bracket) = false ->
+    decrypt_file key dec zdec k (encrypt_file key enc zenc None k n (b :: r))
+    = if b =? m_zstd then match zdec r with Some x => Ok x | None => Err EZstd end
+      else Err EUnsupported.
+Proof. intros. eapply plain_mode_non_json; eassumption. Qed.
+Print Assumptions plain_mode_non_json_does_not_read_back.
+
+(* the freshness clause of ideal_aead follows, for the log of a run, from the (key, nonce) pairs
+   drawn being pairwise distinct — the observable the correspondence checks *)
+Theorem distinct_nonces_give_freshness :
+  forall (key : Type) (log : list (key * bytes * bytes)),
+    NoDup (map (fun e => (fst (fst e), snd (fst e))) log) ->
+    forall k n m m', issued_of_log log k n m -> issued_of_log log k n m' -> m = m'.
+Proof. intros key log. apply distinct_nonces_fresh. Qed.
+Print Assumptions distinct_nonces_give_freshness.
